@@ -588,7 +588,7 @@ class Generator:
 
     def _locate_fn(self, f, path):
         """path: name | Type::name | Trait for Type::name"""
-        mt = re.match(r'(?:(\w+)\s+for\s+)?(?:(\w+)::)?(\w+)$', path)
+        mt = re.match(r'(?:(\w+)@)?(?:(\w+)::)?(\w+)$', path)
         if not mt:
             raise Inconclusive('bad fn path %r' % path)
         trait, ty, name = mt.groups()
